@@ -383,8 +383,13 @@ func c13srcPassEndPath(p *packages.Package, fd *ast.FuncDecl, dec string) []ast.
 	}
 	switch dec {
 	case "raw":
-		if is := findIf(loop.Body.List, "err == io.EOF"); is != nil {
-			return is.Body.List
+		// `if err == io.EOF { … }` or `if err == io.EOF && len(data) == 0 { … }` (which of the two: c13srcRawLastLine)
+		for _, s := range loop.Body.List {
+			if is, ok := s.(*ast.IfStmt); ok && is.Init == nil && is.Else == nil {
+				if isEOF, _, known := c13srcEOFCond(p, is.Cond); isEOF && known {
+					return is.Body.List
+				}
+			}
 		}
 	case "uri":
 		if outer := findIf(loop.Body.List, "!d.scanner.Scan()"); outer != nil {
@@ -414,6 +419,124 @@ func c13srcPassEndPath(p *packages.Package, fd *ast.FuncDecl, dec string) []ast.
 		}
 	}
 	return nil
+}
+
+// c13srcConjuncts splits a condition at its top-level `&&`
+func c13srcConjuncts(e ast.Expr) []ast.Expr {
+	for {
+		pe, ok := e.(*ast.ParenExpr)
+		if !ok {
+			break
+		}
+		e = pe.X
+	}
+	if be, ok := e.(*ast.BinaryExpr); ok && be.Op == token.LAND {
+		return append(c13srcConjuncts(be.X), c13srcConjuncts(be.Y)...)
+	}
+	return []ast.Expr{e}
+}
+
+// c13srcEOFCond reads the condition under which a `ReadString` loop takes the end of the file: a conjunction that holds
+// `err == io.EOF` (or `errors.Is(err, io.EOF)`), possibly together with "no data came with it" (`len(data) == 0`, `data == ""`,
+// `len(data) < 1`). known = every conjunct is one of these.
+func c13srcEOFCond(p *packages.Package, cond ast.Expr) (isEOF, needsNoData, known bool) {
+	known = true
+	for _, c := range c13srcConjuncts(cond) {
+		switch c13srcText(p, c) {
+		case "err == io.EOF", "io.EOF == err", "errors.Is(err, io.EOF)":
+			isEOF = true
+		case "len(data) == 0", "data == \"\"", "len(data) < 1", "0 == len(data)", "len(data) <= 0":
+			needsNoData = true
+		default:
+			known = false
+		}
+	}
+	return
+}
+
+// c13srcRawLastLine: what the raw decoder does with a last line that lacks its newline (`ReadString` returns the line
+// TOGETHER with io.EOF): 0 = dropped (the end-of-file block is entered on any io.EOF), 1 = read as a line (the block
+// needs "no data" and the read-error check lets io.EOF through), 2 = refused as a read error.
+func c13srcRawLastLine(x *c13srcX, fd *ast.FuncDecl) int {
+	p := x.p
+	var loop *ast.ForStmt
+	for _, s := range fd.Body.List {
+		if f, ok := s.(*ast.ForStmt); ok {
+			loop = f
+		}
+	}
+	if loop == nil {
+		x.fail(fd, "rawDecoder.Scan: no loop")
+		return -1
+	}
+	state := 0 // 0 before the read, 1 after the read, 2 after the end-of-file block
+	needsNoData := false
+	for _, s := range loop.Body.List {
+		switch state {
+		case 0:
+			if as, ok := s.(*ast.AssignStmt); ok && len(as.Rhs) == 1 && c13srcText(p, as.Rhs[0]) == "d.reader.ReadString('\\n')" {
+				if len(as.Lhs) != 2 || c13srcText(p, as.Lhs[0]) != "data" || c13srcText(p, as.Lhs[1]) != "err" {
+					x.fail(s, "rawDecoder.Scan: the read is not `data, err = …`")
+					return -1
+				}
+				state = 1
+			}
+		case 1:
+			is, ok := s.(*ast.IfStmt)
+			if !ok {
+				x.fail(s, "rawDecoder.Scan: the statement after the read is not the end-of-file test: %s", c13srcText(p, s))
+				return -1
+			}
+			isEOF, nd, known := c13srcEOFCond(p, is.Cond)
+			if !isEOF || !known {
+				x.fail(s, "rawDecoder.Scan: end-of-file test not understood: %s", c13srcText(p, is.Cond))
+				return -1
+			}
+			needsNoData = nd
+			state = 2
+		case 2:
+			is, ok := s.(*ast.IfStmt)
+			if !ok || is.Init != nil || len(is.Body.List) != 1 {
+				continue
+			}
+			rs, ok := is.Body.List[0].(*ast.ReturnStmt)
+			if !ok || len(rs.Results) != 2 || c13srcIsNil(rs.Results[1]) {
+				continue
+			}
+			// the first test after the end-of-file block that returns an error and looks at `err`
+			errNonNil, passesEOF, other := false, false, false
+			for _, c := range c13srcConjuncts(is.Cond) {
+				switch c13srcText(p, c) {
+				case "err != nil", "nil != err":
+					errNonNil = true
+				case "err != io.EOF", "io.EOF != err", "!errors.Is(err, io.EOF)":
+					passesEOF = true
+				default:
+					other = true
+				}
+			}
+			if !errNonNil {
+				continue
+			}
+			if other {
+				x.fail(s, "rawDecoder.Scan: read-error test not understood: %s", c13srcText(p, is.Cond))
+				return -1
+			}
+			switch {
+			case !needsNoData:
+				return 0
+			case passesEOF:
+				return 1
+			default:
+				return 2
+			}
+		}
+	}
+	if state == 2 && !needsNoData {
+		return 0
+	}
+	x.fail(fd, "rawDecoder.Scan: read / end-of-file test / read-error test not found in this order")
+	return -1
 }
 
 // passEnd: symbolic execution of a pass-end path. Statements that only reset the reader state (header, line counter,
@@ -675,6 +798,9 @@ func c13srcExtra(t *tr) string {
 			}
 			fmt.Fprintf(&b, "/-- regenerated from `decoders/%s.go` `Scan`: the statements executed between the end of the file and the next read,\nin source order: (0 = read again | 1 = ErrPassLimit | 2 = ErrNoAmmo, `d.passNum` afterwards, the file was sought to its start) -/\n", dec)
 			fmt.Fprintf(&b, "def %sPassEnd (passes passNum ammoNum : Int) : Int × Int × Bool :=\n%s\n\n", dec, x.passEnd(path, false, "  "))
+			if dec == "raw" {
+				fmt.Fprintf(&b, "/-- regenerated from `decoders/raw.go` `Scan`: what becomes of a last line that lacks its newline (`ReadString` returns it\ntogether with io.EOF): 0 = dropped (any io.EOF ends the pass) | 1 = read as a line (the pass ends only on io.EOF WITHOUT data, and the\nread-error test lets io.EOF through) | 2 = refused as a read error -/\ndef rawLastLine : Int := %d\n\n", c13srcRawLastLine(x, fd))
+			}
 		}
 	}
 
